@@ -471,3 +471,84 @@ package types
 //@   ensures  [shrinks-by-one] removed ==> len(valSet.Validators) == old(len(valSet.Validators)) - 1 && val != nil && bytesEq(val.Address, address)
 //@   ensures  [not-removed-unchanged] !removed ==> valSet.Validators == old(valSet.Validators) && valSet.proposer == old(valSet.proposer) && valSet.totalVotingPower == old(valSet.totalVotingPower)
 //@   ensures  wfValSet(valSet)
+
+// ---------------------------------------------------------------------------------------------
+// blocks (C02, C04, C08)
+
+//@ spec dataHashOf(txs Slice, etxs Slice) Bytes
+//@ spec commitHashOf(c Ref) Bytes
+//@ spec blockHashOf(b Ref) Bytes
+//@ spec headerHashOf(h Ref) Bytes
+
+//@ func (*Data).Hash
+//@   trusted
+//@   assigns data.hash
+//@   ensures result == data.hash
+//@   ensures old(data.hash) != nil ==> result == old(data.hash)
+//@ func (*Commit).Hash
+//@   trusted
+//@   assigns commit.hash
+//@   ensures result == commit.hash
+//@   ensures old(commit.hash) != nil ==> result == old(commit.hash)
+//@ func (*Header).Hash
+//@   trusted
+//@   pure
+//@   ensures result == headerHashOf(h)
+//@   ensures len(h.ValidatorsHash) == 0 ==> result == nil
+
+// a decoded block is usable only if its three parts are present
+//@ pred wfBlock(b *Block) = b != nil && b.Header != nil && b.Data != nil && b.LastCommit != nil
+
+//@ func (*Block).FillHeader
+//@   props C02
+//@   requires wfBlock(b)
+//@   assigns  b.Header.LastCommitHash, b.Header.DataHash, b.LastCommit.hash, b.Data.hash
+//@   ensures  [never-overwrites-commit-hash] old(b.Header.LastCommitHash) != nil ==> b.Header.LastCommitHash == old(b.Header.LastCommitHash)
+//@   ensures  [never-overwrites-data-hash] old(b.Header.DataHash) != nil ==> b.Header.DataHash == old(b.Header.DataHash)
+
+//@ func (*Block).Hash
+//@   props C02 C04 C08
+//@   assigns  b.Header.LastCommitHash, b.Header.DataHash, b.LastCommit.hash, b.Data.hash
+//@   ensures  [nil-parts-nil-hash] (b == nil || b.Header == nil || b.Data == nil || b.LastCommit == nil) ==> result == nil
+//@   ensures  [never-overwrites-commit-hash] wfBlock(b) && old(b.Header.LastCommitHash) != nil ==> b.Header.LastCommitHash == old(b.Header.LastCommitHash)
+//@   ensures  [never-overwrites-data-hash] wfBlock(b) && old(b.Header.DataHash) != nil ==> b.Header.DataHash == old(b.Header.DataHash)
+//@   trusted-ensures result == blockHashOf(b)
+
+//@ func (*Block).HashesTo
+//@   props C02 C04 C08
+//@   assigns  b.Header.LastCommitHash, b.Header.DataHash, b.LastCommit.hash, b.Data.hash
+//@   ensures  result == (len(hash) != 0 && b != nil && bytesEq(blockHashOf(b), hash))
+
+//@ func (*Commit).ValidateBasic
+//@   props C02 C08
+//@   requires commit != nil
+//@   assigns  commit.firstPrecommit
+//@   ensures  [commit-not-for-nil] result == nil ==> !(len(commit.BlockID.Hash) == 0 && commit.BlockID.PartsHeader.Total == 0) && len(commit.Precommits) > 0
+//@   ensures  [precommits-are-precommits] result == nil ==> forall(j, 0, len(commit.Precommits), commit.Precommits[j] != nil ==> commit.Precommits[j].Type == VoteTypePrecommit)
+//@   loop 0 invariant 0 <= $i && $i <= len(commit.Precommits)
+//@   loop 0 invariant forall(j, 0, $i, commit.Precommits[j] != nil ==> commit.Precommits[j].Type == VoteTypePrecommit)
+
+//@ func (*Block).ValidateBasic
+//@   props C02 C08
+//@   requires wfBlock(b)
+//@   assigns  b.Data.hash
+//@   ensures  [chain-id] result == nil ==> b.Header.ChainID == chainID
+//@   ensures  [height-follows] result == nil ==> b.Header.Height == lastBlockHeight + 1
+//@   ensures  [num-txs] result == nil ==> b.Header.NumTxs == len(b.Data.Txs) + len(b.Data.ExTxs)
+//@   ensures  [extends-last-block] result == nil ==> blockIDEq(b.Header.LastBlockID, lastBlockID)
+//@   ensures  [data-hash-commits] result == nil ==> bytesEq(b.Header.DataHash, b.Data.hash)
+//@   ensures  [app-hash] result == nil ==> bytesEq(b.Header.AppHash, appHash)
+//@   ensures  [receipts-hash] result == nil ==> bytesEq(b.Header.ReceiptsHash, receiptsHash)
+
+//@ func (*Block).ValidateCommit
+//@   props C02 C08
+//@   requires wfBlock(b)
+//@   assigns  b.LastCommit.hash, b.LastCommit.firstPrecommit
+//@   ensures  [commit-hash-commits] result == nil ==> bytesEq(b.Header.LastCommitHash, b.LastCommit.hash)
+//@   ensures  [commit-shape] result == nil && b.Header.Height != 1 ==> len(b.LastCommit.Precommits) > 0
+
+//@ spec valSetHashOf(vs Ref) Bytes
+//@ func (*ValidatorSet).Hash
+//@   trusted
+//@   pure
+//@   ensures result == valSetHashOf(valSet)
